@@ -51,7 +51,7 @@ HARNESSES_LH1 = [
     dict(name="lh1.read", src="C09/lh1.c", entry="harness_read", defines=["BITS_ANY", "READ_HARNESS"], rename_defs=rn({"lib/lh1_decoder.c": ["read_code"]}), mode="safety",
          unwind=7, unwindset={"init_offset_table.0": 25, "fill_offset_range.0": 34, "lha_lh1_read.0": 61}, flags=["--slice-formula"],
          units=["lib/lh1_decoder.c:lha_lh1_read,output_byte,read_offset,init_offset_table"], timeout=300, mem_gb=4,
-         bounds="real constants; arbitrary write position < 4096; one command: literal or copy of 3..60 bytes at any distance; output buffer = object of max_read (4096) bytes",
+         bounds="real constants; arbitrary write position < 4096; one command: literal or copy of 3..60 bytes at any distance; output buffer = heap object of exactly the declared max_read bytes",
          stubs=[BITSTUB, "read_code: arbitrary symbol < NUM_CODES or failure (justified by lh1.code.*: decoded symbol < NUM_CODES)"]),
 ]
 HARNESSES = HARNESSES_LH1
